@@ -528,6 +528,7 @@ func init() {
 			c.Require("e2e_scrapes_checked")
 			c.Require("simultaneous_first_open_rounds")
 			c.Require("zoned_clients")
+			c.Require("e2e_udp_shutdown_cases")
 			c17Sequential(c)
 			c17Concurrent(c)
 			if !c17SimultaneousFirstOpens(c) {
